@@ -22,6 +22,7 @@ import Proofs.RoundTrip
 import Proofs.ValueTie
 import Proofs.ExportText
 import Proofs.FlowTie
+import Proofs.FlowTieBuilders
 
 namespace Jl.C04
 open Jl Jl.Value Cast CastTyped
